@@ -413,7 +413,10 @@ def is_features_concatenate(n: fx.Node, parent: fx.GraphModule) -> bool:
     :return: `True` if `n` corresponds to a concat op.
     :rtype: bool
     """
-    dim = try_get_args(n, parent, 1, 'dim', 0)
+    dim = try_get_args(n, parent, 1, 'dim', None)
+    if dim is None:
+        # torch.cat also accepts the numpy-style keyword `axis`
+        dim = n.kwargs.get('axis', 0)
     if n.op == 'call_function' and n.target == torch.cat:
         # an axis counted from the end is the features axis only for a tensor of the matching rank
         if 'tensor_meta' in n.meta:
